@@ -1,7 +1,7 @@
 SPECIFICATION LitSpec
 CONSTANTS
   Widths = {8, 16, 32, 64}
-  Zeros = {0, 1, 3}
+  Zeros = {0, 1, 2, 3}
   Positions = {1, 2}
   AsIsD10 = FALSE
   AsIsD12 = FALSE
